@@ -313,6 +313,26 @@ pub fn gen_rcv(r: &mut Rng, thorough: bool, cx: &mut Ctx) {
             }
         }
     }
+    // complete multi-frame packets in which a frame other than the last is only partly filled (any data length is a well-formed frame: a
+    // sender need not fill its frames), then the two probes: nothing is held once the packet has been handed over or an error reported
+    for link in 0..3u64 {
+        for _ in 0..(if thorough { 400 } else { 24 }) {
+            let mut toks = vec![];
+            let n = r.range(9, 45) as usize; let q = gen_packet(r, n);
+            let mut fs = frames_of(&q);
+            if fs.len() >= 2 {
+                let i = r.below(fs.len() as u64 - 1) as usize; let dl = r.range(1, 7) as usize;
+                for j in dl..8 { fs[i].data[j] = 0; }
+                fs[i].data_len = dl as u8;
+            }
+            for f in fs.iter() { frame_tokens(link, f, &mut toks); }
+            let p1 = gen_packet(r, 5); let p2 = gen_packet(r, 20);
+            let np = toks.len();
+            packet_tokens(link, &p1, &mut toks); packet_tokens(link, &p2, &mut toks);
+            let mut meta = vec![count_tokens(link, &toks[np..])]; show_packet(&p1, &mut meta); show_packet(&p2, &mut meta);
+            emit_rcv(cx, link, &meta, &toks);
+        }
+    }
 }
 
 // ---------- LNK ----------
